@@ -62,6 +62,22 @@ where
     }
 }
 
+/// Read-only accessor used by the external verification harness (`--cfg crux_verif`).
+#[cfg(crux_verif)]
+impl<Op> Request<Op>
+where
+    Op: Operation,
+{
+    /// The current arity of this request's resolve callback: "never", "once" or "many".
+    pub fn verif_kind(&self) -> &'static str {
+        match self.resolve {
+            Resolve::Never => "never",
+            Resolve::Once(_) => "once",
+            Resolve::Many(_) => "many",
+        }
+    }
+}
+
 impl<Op> fmt::Debug for Request<Op>
 where
     Op: Operation + Debug,
